@@ -143,6 +143,7 @@ type State struct {
 	nEvents    int
 	callCounts map[string]int
 	meta       map[string]Val
+	retHeaps   map[string]map[string]Term // callee name -> heap when its most recent call returned (spec: after("pat", e))
 	seenRefs   []Term // references observed so far on this path (a later allocation differs from all of them)
 }
 
@@ -164,6 +165,12 @@ func (s *State) clone() *State {
 	n.callCounts = make(map[string]int, len(s.callCounts))
 	for k, v := range s.callCounts {
 		n.callCounts[k] = v
+	}
+	if s.retHeaps != nil {
+		n.retHeaps = make(map[string]map[string]Term, len(s.retHeaps))
+		for k, v := range s.retHeaps {
+			n.retHeaps[k] = v // snapshots are never mutated
+		}
 	}
 	if s.meta != nil {
 		n.meta = make(map[string]Val, len(s.meta))
